@@ -476,6 +476,7 @@ class SimWorld:
         self._res_ids = {}
         self.streams = []
         self.opened = []
+        self.raised = []         # exception objects raised by simdt callbacks
         self.res_events = {}     # id(resource) -> seq of resource-create
 
     def begin_op(self, name, faults=()):
